@@ -9,7 +9,7 @@ type isStandardClass interface {
 
 	mergeSupers() bool
 	slotDefMap() map[string]*SlotDef
-	initArgDef(name string) *SlotDef
+	initArgDef(name string) []*SlotDef
 	initFormMap() map[string]*SlotDef
 	defaultsMap() map[string]slip.Object
 	precedenceList() []slip.Symbol
